@@ -40,6 +40,29 @@ def _store(ser):
         return None
 
 
+def _received(ser):
+    """The snapshot a completed transfer delivered: since D70 it is kept apart (`__incomingSnapshot`: the bytes, or the
+    name of `<dump>.1.tmp`) until `finishIncoming`; before, it replaced the store at once."""
+    snap = getattr(ser, "_Serializer__incomingSnapshot", None)
+    if snap is None:
+        return _store(ser)
+    if isinstance(snap, bytes):
+        return snap
+    with open(snap, "rb") as f:
+        return f.read()
+
+
+def _load_received(ser):
+    try:
+        if hasattr(ser, "finishIncoming"):
+            ser.deserialize(incoming=True)
+        else:
+            ser.deserialize()
+        return "loads"
+    except Exception as e:
+        return "load fails with " + type(e).__name__
+
+
 def scenario(repo, mode, variant, workdir):
     for name in ("pysyncobj.syncobj", "pysyncobj.serializer"):      # the code logs the failed load; keep stderr clean
         lg = logging.getLogger(name)
@@ -86,12 +109,7 @@ def scenario(repo, mode, variant, workdir):
     def watched_set(data):
         r = real_set(data)
         if r:
-            try:
-                f_ser.deserialize()
-                load = "loads"
-            except Exception as e:
-                load = "load fails with " + type(e).__name__
-            completions.append((_store(f_ser), load, len(sim.sent)))
+            completions.append((_received(f_ser), _load_received(f_ser), len(sim.sent)))
         return r
     f_ser.setTransmissionData = watched_set
 
@@ -149,7 +167,7 @@ def scenario(repo, mode, variant, workdir):
                    % (replies[0]["next_node_idx"], replies[0]["success"], sim.P(L, "raftLog")[1][1])) if replies else "no reply"
             viols.append({"signature": SIG,
                           "what": "%s mode, %s: follower completed a snapshot transfer with %d bytes that equal no snapshot the "
-                                  "leader held (%s bytes); its previous complete dump (%s bytes) was replaced by the torn bytes, "
+                                  "leader held (%s bytes); its previous complete dump had %s bytes, "
                                   "%s, %s" % (mode, variant, len(st), [len(h) for h in held], notes["follower_old_dump_bytes"], load, ack)})
             break
     notes["completions"] = len(completions)
@@ -202,12 +220,7 @@ def scenario_releader(repo, mode, workdir):
     def watched_set(data):
         r = real_set(data)
         if r:
-            try:
-                f_ser.deserialize()
-                load = "loads"
-            except Exception as e:
-                load = "load fails with " + type(e).__name__
-            completions.append((_store(f_ser), load))
+            completions.append((_received(f_ser), _load_received(f_ser)))
         return r
     f_ser.setTransmissionData = watched_set
     real_get = l_ser.getTransmissionData
